@@ -53,8 +53,14 @@ ENGINES = {
     # cleaners: register / clean / Cleanable drop / owner release by count and by the collector, actions that act
     'clean': _eng('clean', dict(N=2, NS=1, CLEAN=True, MaxActs=2, MaxOps=6, OPS={"new", "drop", "put", "collect", "register", "clean", "dropcl", "clone"}),
                   dict(MaxOps=7), {'quick': ['all-dev'], 'thorough': ['all-dev', 'nofin-rel']}),
+    # registering actions while an automatic collection is due (Cc::new of the map runs user code, nested register on the same Cleaner)
+    'cleanauto': _eng('cleanauto', dict(N=2, NS=1, CLEAN=True, AUTO0=True, MaxActs=2, MaxOps=6, OPS={"new", "drop", "put", "collect", "register", "clean"}),
+                  dict(MaxOps=7), {'quick': ['all-dev'], 'thorough': ['all-dev', 'nofin-rel']}),
     'cleanfault': _eng('cleanfault', dict(N=2, NS=1, CLEAN=True, MaxActs=2, MaxOps=5, MaxFaults=1, MaxTraceK=1, OPS={"new", "drop", "put", "collect", "register", "clean", "dropcl"}),
                   dict(MaxOps=6), {'quick': ['all-dev'], 'thorough': ['all-dev', 'nofin-rel']}),
+    # deeper fault histories over two objects (stale marks / counters left by an unwound collection and what later operations do with them)
+    'fault2': _eng('fault2', dict(N=2, NS=1, MaxOps=7, MaxFaults=1, MaxTraceK=3, OPS={"new", "clone", "drop", "set", "collect"}), dict(MaxOps=9),
+                   {'quick': ['all-dev'], 'thorough': ['all-dev', 'nofin-rel']}),
     'faultnofin': _eng('faultnofin', dict(FIN=False, MaxOps=5, MaxFaults=1, MaxTraceK=3, OPS=CORE_OPS - {"fagain"}), dict(MaxOps=7), {'quick': ['nofin-rel'], 'thorough': ['nofin-dev', 'nofin-rel']}),
 }
 
@@ -98,7 +104,7 @@ def graph_conformance(tier, seed):
 GRAPH_PROPS = ['C01', 'C02', 'C03', 'C04', 'C05', 'C06', 'C07', 'C08', 'C09', 'C11', 'C12', 'C10', 'C13', 'C14', 'C15', 'C16', 'C20']
 
 
-GRAPH_ENGINES = ['resur', 'core', 'pin', 'nofin', 'fault', 'faultnofin', 'weak', 'weaknofin', 'auto', 'cyc', 'sat', 'clean', 'cleanfault']
+GRAPH_ENGINES = ['resur', 'fault2', 'core', 'pin', 'nofin', 'fault', 'faultnofin', 'weak', 'weaknofin', 'auto', 'cyc', 'sat', 'clean', 'cleanfault', 'cleanauto']
 
 # which engines decide which property (stage results are cached per tree, so properties share the work)
 PROP_ENGINES = {
@@ -108,10 +114,10 @@ PROP_ENGINES = {
     'C04': ['core', 'pin', 'fault', 'weak', 'sat'],
     'C05': ['resur', 'core', 'nofin', 'fault', 'weak'],
     'C06': ['live', 'resur', 'core', 'weak'],
-    'C07': ['fault', 'faultnofin', 'weaknofin', 'cleanfault', 'auto', 'cyc'],
+    'C07': ['fault', 'fault2', 'faultnofin', 'weaknofin', 'cleanfault', 'auto', 'cyc'],
     'C08': ['weak', 'weaknofin', 'clean'],
     'C09': ['weak', 'weaknofin', 'cyc', 'sat'],
-    'C10': ['clean', 'cleanfault'],
+    'C10': ['clean', 'cleanfault', 'cleanauto'],
     'C11': ['core', 'auto', 'weak', 'cyc'],
     'C12': ['core', 'fault', 'clean', 'auto'],
     'C13': ['core', 'weak', 'cyc'],
